@@ -122,7 +122,7 @@ def graph_cases(draw, tier="quick"):
         by_shape = [draw(st.integers(1, 5)), draw(st.integers(2, 6))]
     n = int(np.prod(by_shape))
     batch = draw(st.sampled_from([[], [2], [3]]))
-    ng = draw(st.integers(1, 6))
+    ng = draw(st.integers(1, 9))
     codes = gen.draw_label_codes(draw, n, ng, draw(st.sampled_from(["random", "periodic", "runs", "blocks"])))
     labels = [float(c) for c in codes]
     if draw(st.booleans()):
@@ -131,7 +131,7 @@ def graph_cases(draw, tier="quick"):
     if all(x == "nan" for x in labels):
         labels[0] = 0.0
     shape = batch + by_shape
-    chunks = [gen.draw_chunks(draw, s, max_blocks=6) for s in shape]
+    chunks = [gen.draw_chunks(draw, s, max_blocks=14) for s in shape]
     present = sorted({x for x in labels if x != "nan"})
     mode = draw(st.sampled_from(["none", "none", "superset", "subset"]))
     case = {"mode": "graph", "shape": shape, "by": {"dt": "<f8", "sh": by_shape, "v": labels}, "chunks": chunks,
